@@ -1,13 +1,335 @@
-import LinOp.C11.Model
+import LinOp.C11.Proofs
 import LinOp.Generated.C11Consts
 /-!
-C11 — MINRES / contour-integral quadrature.  Property theorems only (stub while the harness is brought up).
+C11 — MINRES solves all shifted systems; contour quadrature gives the matrix root.  Property theorems only.
+
+The model (`LinOp/C11/Model.lean`) follows `minres`, `_jit_minres_updates`, the plumbing of `contour_integral_quad`
+and `SqrtInvMatmul.forward` statement by statement; scalars are an arbitrary field, `sqrt` and `<` are parameters.
+
+Stated but NOT proved (checked numerically on the implementation only, see `harness/checks/c11.py`):
+* MINRES residual optimality: after `j` steps `solution_j` minimises `‖b − (value·K + sP)x‖` over the Krylov space;
+* `minres_exact_at_dim`: the residual vanishes once the Krylov space is exhausted (in the code `beta_curr` is then clamped
+  to `eps = 1e-25`, so the statement only holds up to an `eps`-perturbation);
+* quadrature accuracy `Σ_q w_q (K + s_q I)⁻¹ ≈ K^{-1/2}` (Hale–Higham–Trefethen; needs Jacobi elliptic functions).
 -/
 namespace LinOp.C11
+open Generated.C11
 
-/-- The literals of the source are the documented ones. -/
+/-! ### generated facts -/
+
+/-- The literals of the source are the documented ones (every 10th step, two extra iterations, `n + 1`,
+`value = -1` in CIQ, 15 quadrature nodes, tolerance 1e-4, eps 1e-25, zero threshold 1e-10). -/
 theorem generated_literals :
-    Generated.C11.checkEvery = 10 ∧ Generated.C11.extraIters = 2 ∧ Generated.C11.sizeSlack = 1 := by
+    checkEvery = 10 ∧ extraIters = 2 ∧ sizeSlack = 1 ∧ literalsFound = true ∧ ciqValue = -1 ∧
+    numContourQuadrature = 15 ∧ maxLanczosIter = 20 ∧ minresTolerance = 1 / 10000 ∧
+    eps = 1 / 10000000000000000000000000 ∧ zeroThresh = 1 / 10000000000 ∧ shiftOffset = 0 := by
   decide +kernel
+
+/-- The kernel is called with its own parameter names in order (no swapped buffer at the call site). -/
+theorem kernel_call_aligned : kernelCallArgs = kernelParams := by decide +kernel
+
+/-- The statements of `_jit_minres_updates` are the ones `rotTerms` / `givensStep` mirror. -/
+theorem kernel_statements_mirrored :
+    kernel = ["torch.mul(sin_prev2, beta_prev, out=subsub_diag_term)",
+      "torch.mul(cos_prev2, beta_prev, out=sub_diag_term)",
+      "torch.add(alpha_curr, shifts, out=alpha_shifted_curr)",
+      "torch.mul(alpha_shifted_curr, cos_prev1, out=diag_term).addcmul_(sin_prev1, sub_diag_term, value=-1)",
+      "sub_diag_term.mul_(cos_prev1).addcmul_(sin_prev1, alpha_shifted_curr)",
+      "torch.mul(diag_term, diag_term, out=radius_curr).addcmul_(beta_curr, beta_curr).sqrt_()",
+      "cos_curr = torch.div(diag_term, radius_curr, out=cos_curr)",
+      "sin_curr = torch.div(beta_curr, radius_curr, out=sin_curr)",
+      "diag_term.mul_(cos_curr).addcmul_(sin_curr, beta_curr)",
+      "torch.mul(scale_prev, sin_curr, out=scale_curr).mul_(-1)",
+      "scale_prev.mul_(cos_curr)",
+      "torch.addcmul(qvec_prev1, sub_diag_term, search_prev1, value=-1, out=search_curr)",
+      "search_curr.addcmul_(subsub_diag_term, search_prev2, value=-1)",
+      "search_curr.div_(diag_term)",
+      "torch.mul(search_curr, scale_prev, out=search_update)",
+      "solution.add_(search_update)"] := by decide +kernel
+
+/-- The Lanczos part of the loop body and the convergence test are the ones `lanczosStep` / `iterate` mirror. -/
+theorem loop_statements_mirrored :
+    (loopBody.take 12 = ["prod = mm_(qvec_prev1)", "if value is not None: prod.mul_(value)",
+      "torch.mul(prod, qvec_prev1, out=tmpvec)", "torch.sum(tmpvec, -2, keepdim=True, out=alpha_curr)",
+      "zvec_curr = prod.addcmul_(alpha_curr, zvec_prev1, value=-1).addcmul_(beta_prev, zvec_prev2, value=-1)",
+      "qvec_curr = preconditioner(zvec_curr)", "torch.mul(zvec_curr, qvec_curr, out=tmpvec)",
+      "torch.sum(tmpvec, -2, keepdim=True, out=beta_curr)", "beta_curr.sqrt_()", "beta_curr.clamp_min_(eps)",
+      "zvec_curr.div_(beta_curr)", "qvec_curr.div_(beta_curr)"]) ∧
+    loopBody.length = 13 ∧ loopIter = "range(max_iter + 2)" ∧ checkTest = "(i + 1) % 10 == 0" ∧
+    checkBody = ["torch.norm(search_update, dim=-2, out=search_update_norm)",
+      "torch.norm(solution, dim=-2, out=solution_norm)",
+      "conv = search_update_norm.div_(solution_norm).mean().item()",
+      "if conv < settings.minres_tolerance.value(): break"] ∧
+    afterLoop = ["solution.masked_fill_(rhs_is_zero, 0)",
+      "if squeeze: solution = solution.squeeze(-1) rhs = rhs.squeeze(-1) rhs_norm = rhs_norm.squeeze(-1)",
+      "if shifts.numel() == 1: solution = solution.squeeze(0)", "return solution.mul_(rhs_norm)"] := by
+  decide +kernel
+
+/-- The CIQ call of MINRES and the forward pass of `SqrtInvMatmul` are the ones `ciq` / `sqrtInvMatmulLhs` mirror. -/
+theorem ciq_statements_mirrored :
+    ciqMinresCall = "minres(lambda v: linear_op._matmul(v), rhs, value=-1, shifts=shifts, preconditioner=preconditioner)" ∧
+    ciqBody.drop (ciqBody.length - 5) = ["with torch.no_grad(): solves = minres(lambda v: linear_op._matmul(v), rhs, value=-1, shifts=shifts, preconditioner=preconditioner)",
+      "no_shift_solves = solves[0]", "solves = solves[1:]", "if not inverse: solves = linear_op._matmul(solves)",
+      "return (solves, weights, no_shift_solves, shifts)"] ∧
+    simForward.length = 5 ∧ simForward.getLast? = some "return (sqrt_inv_matmul_res, inv_quad_res)" := by
+  decide +kernel
+
+/-! ### buffer rotation -/
+
+/-- Every assignment of the rotation block that recycles in-place buffers is a permutation of its names. -/
+theorem rotation_is_permutation : rotPerm.all TupleAssign.isPerm = true ∧ rotPerm.length = 5 ∧
+    rotShift = [{ lhs := ["zvec_prev2", "zvec_prev1"], rhs := ["zvec_prev1", "prod"] },
+                { lhs := ["qvec_prev1"], rhs := ["qvec_curr"] }] := by decide +kernel
+
+/-- **`buffer_rotation_no_alias`** — after any number `k` of loop iterations, no two of the names
+`beta_*`, `cos_*`, `sin_*`, `search_*`, `scale_*` (the buffers written through `out=` by the kernel) denote the same
+buffer.  (`zvec_*`/`qvec_*` are shifted, not permuted: `prod` and `qvec_curr` are freshly allocated in every iteration.)
+Proved for the rotation block *extracted from the source*: period 6, then all residues by kernel evaluation. -/
+theorem buffer_rotation_no_alias (k : Nat) : NoAlias (rotateN rotPerm k (env0 rotPermNames)) := by
+  refine rotateN_forall rotPerm 6 (by decide) _ (by decide +kernel) NoAlias ?_ k
+  intro r hr
+  have : r = 0 ∨ r = 1 ∨ r = 2 ∨ r = 3 ∨ r = 4 ∨ r = 5 := by omega
+  rcases this with h | h | h | h | h | h <;> subst h <;> decide +kernel
+
+/-- The buffer written as `*_curr` in an iteration is the one that was `*_prev2` (three-way groups) resp.
+`*_prev` (two-way groups) in the previous iteration — the oldest, dead one; and `prev1`/`prev2` shift down. -/
+def RecyclesOldest (e : Env) : Prop :=
+  let e' := applyAll rotPerm e
+  e'.get "cos_curr" = e.get "cos_prev2" ∧ e'.get "sin_curr" = e.get "sin_prev2" ∧
+  e'.get "search_curr" = e.get "search_prev2" ∧ e'.get "scale_curr" = e.get "scale_prev" ∧
+  e'.get "beta_curr" = e.get "beta_prev" ∧ e'.get "cos_prev1" = e.get "cos_curr" ∧
+  e'.get "search_prev1" = e.get "search_curr" ∧ e'.get "search_prev2" = e.get "search_prev1"
+
+instance (e : Env) : Decidable (RecyclesOldest e) := by unfold RecyclesOldest; infer_instance
+
+theorem rotation_recycles_oldest (k : Nat) : RecyclesOldest (rotateN rotPerm k (env0 rotPermNames)) := by
+  refine rotateN_forall rotPerm 6 (by decide) _ (by decide +kernel) RecyclesOldest ?_ k
+  intro r hr
+  have : r = 0 ∨ r = 1 ∨ r = 2 ∨ r = 3 ∨ r = 4 ∨ r = 5 := by omega
+  rcases this with h | h | h | h | h | h <;> subst h <;> decide +kernel
+
+/-! ### shapes -/
+
+/-- **`minres_shift_dim`** — with `shifts=None` the result has the shape of the (broadcast) right-hand side; a vector
+right-hand side loses its column dimension. -/
+theorem minres_shape_no_shifts (prodShape : List Nat) (vec : Bool) (h : prodShape ≠ []) :
+    outShape none prodShape vec = if vec then prodShape.dropLast else prodShape := by
+  have hrep : ∀ m, prodNat (List.replicate m 1) = 1 := by
+    intro m
+    unfold prodNat
+    induction m with
+    | zero => rfl
+    | succ m ih => simpa [List.replicate_succ] using ih
+  have h1 : prodNat (padShifts [] prodShape.length) = 1 := by
+    simp only [padShifts, List.nil_append, List.length_nil, Nat.sub_zero]; exact hrep _
+  have h2 : (padShifts [] prodShape.length).take 1 = [1] := by
+    simp [padShifts, List.replicate_succ]
+  cases prodShape with
+  | nil => exact absurd rfl h
+  | cons a l =>
+    unfold outShape
+    simp only [Option.getD_none, h1, h2, if_true]
+    cases vec <;> simp [List.dropLast]
+
+/-- **`minres_shift_dim`** — with a shift tensor of shape `q :: rest` the result has the leading dimension `q` exactly
+when the shift tensor has more than one element (`numel` of the padded tensor ≠ 1); the remaining dimensions are those of
+the right-hand side (minus the column dimension for a vector). -/
+theorem minres_shift_dim (q : Nat) (rest prodShape : List Nat) (vec : Bool) (h : prodShape ≠ []) :
+    outShape (some (q :: rest)) prodShape vec =
+      (if prodNat (padShifts (q :: rest) prodShape.length) = 1 then [] else [q]) ++
+        (if vec then prodShape.dropLast else prodShape) := by
+  cases prodShape with
+  | nil => exact absurd rfl h
+  | cons a l =>
+    cases vec <;> by_cases hn : prodNat (padShifts (q :: rest) (a :: l).length) = 1 <;>
+      simp [outShape, padShifts, List.dropLast] at hn ⊢ <;> simp [hn]
+
+/-! ### Givens rotations and the search recurrence -/
+
+section field
+variable {α : Type} [Field α]
+
+/-- **`givens_qr_invariant`** (one step, any shift, any history): provided the radius is a genuine square root of
+`diag² + β²` and non-zero, the new rotation is orthogonal (`c² + s² = 1`), annihilates the sub-diagonal entry `β_curr`
+(`−s·diag + c·β = 0`), and the rotated diagonal entry `diag_term` equals the radius. -/
+theorem givens_qr_invariant (N : NumOps α) (shift alpha bp bc : α) {n : Nat} (g : Gv α n)
+    (hr : (rotTerms N shift alpha bp bc g).radius * (rotTerms N shift alpha bp bc g).radius =
+          (rotTerms N shift alpha bp bc g).diag0 * (rotTerms N shift alpha bp bc g).diag0 + bc * bc)
+    (hne : (rotTerms N shift alpha bp bc g).radius ≠ 0) :
+    let r := rotTerms N shift alpha bp bc g
+    r.cosc * r.cosc + r.sinc * r.sinc = 1 ∧ -r.sinc * r.diag0 + r.cosc * bc = 0 ∧ r.diag = r.radius := by
+  intro r
+  have hr' : r.radius * r.radius = r.diag0 * r.diag0 + bc * bc := hr
+  have hne' : r.radius ≠ 0 := hne
+  have hc : r.cosc = r.diag0 / r.radius := rfl
+  have hs : r.sinc = bc / r.radius := rfl
+  have hd : r.diag = r.diag0 * r.cosc + r.sinc * bc := rfl
+  refine ⟨?_, ?_, ?_⟩
+  · rw [hc, hs]; field_simp; linear_combination -hr'
+  · rw [hc, hs]; field_simp; ring
+  · rw [hd, hc, hs]; field_simp; linear_combination -hr'
+
+/-- The three tracked terms are the column `(0, β_prev, α + s, β_curr)` of the shifted tridiagonal matrix after the
+rotations from two steps ago and one step ago: `(subsub, sub₀) = G(c₂,s₂)(0, β_prev)`, `(sub, diag₀) = G(c₁,s₁)(sub₀, α+s)`
+with `G(c,s)(x,y) = (c x + s y, −s x + c y)`.  The shift enters only through the diagonal entry `α + s`. -/
+theorem givens_column (N : NumOps α) (shift alpha bp bc : α) {n : Nat} (g : Gv α n) :
+    let r := rotTerms N shift alpha bp bc g
+    r.subsub = g.cos2 * 0 + g.sin2 * bp ∧
+    r.sub = g.cos1 * (-g.sin2 * 0 + g.cos2 * bp) + g.sin1 * (alpha + shift) ∧
+    r.diag0 = -g.sin1 * (-g.sin2 * 0 + g.cos2 * bp) + g.cos1 * (alpha + shift) := by
+  intro r
+  refine ⟨?_, ?_, ?_⟩ <;> simp only [r, rotTerms] <;> ring
+
+/-- **Search recurrence** (`D R = Q` column by column): the new search vector `d_j` satisfies
+`diag·d_j + sub·d_{j−1} + subsub·d_{j−2} = q_j`, i.e. the search vectors are the columns of `Q R⁻¹`; the solution is
+advanced by `d_j` times the rotated right-hand-side entry, and the names are rotated correctly
+(`prev2 := prev1`, `prev1 := curr`). -/
+theorem search_recurrence (N : NumOps α) (shift alpha bp bc : α) {n : Nat} (q1 : Vec α n) (g : Gv α n)
+    (hd : (rotTerms N shift alpha bp bc g).diag ≠ 0) (i : Fin n) :
+    let r := rotTerms N shift alpha bp bc g
+    let g' := givensStep N shift q1 alpha bp bc g
+    r.diag * g'.s1 i + r.sub * g.s1 i + r.subsub * g.s2 i = q1 i ∧
+    g'.s2 = g.s1 ∧ g'.cos2 = g.cos1 ∧ g'.sin2 = g.sin1 ∧ g'.cos1 = r.cosc ∧ g'.sin1 = r.sinc ∧
+    g'.sol i = g.sol i + g'.s1 i * (g.scalePrev * r.cosc) ∧ g'.scalePrev = -(g.scalePrev * r.sinc) := by
+  intro r g'
+  have hd' : r.diag ≠ 0 := hd
+  refine ⟨?_, rfl, rfl, rfl, rfl, rfl, ?_, ?_⟩
+  · have hs1 : g'.s1 i = (q1 i - r.sub * g.s1 i - r.subsub * g.s2 i) / r.diag := by
+      simp [g', givensStep, r]
+    rw [hs1]; field_simp; ring
+  · simp [g', givensStep, r]
+  · simp [g', givensStep, r]
+
+/-! ### Lanczos part: the shift enters only on the diagonal -/
+
+/-- **`minres_lanczos_part`** — one Lanczos step of the *shifted pencil* `K + σ·P` (where `P` inverts the preconditioner
+on the current vector: `P q = z`, and `⟨z, q⟩ = 1`) produces the same vectors and the same `β` as the step for `K`, and
+`α + σ` instead of `α`: this is why one Lanczos recurrence serves all shifts (`alpha_shifted_curr = alpha_curr + shifts`).
+Without preconditioner `P = id` and the pencil is `K + σI`; **with** a preconditioner the systems solved are
+`(K + σP)x = b`, not `(K + σI)x = b` (listed finding). -/
+theorem minres_lanczos_part (N : NumOps α) (P : Params α) {n : Nat} (s : Sys α n) (l : Lz α n) (σ : α)
+    (pinv : Vec α n → Vec α n) (hv : P.value = none) (hq : pinv l.q1 = l.z1) (hnorm : dot l.z1 l.q1 = 1) :
+    let sσ : Sys α n := { s with amul := fun v i => s.amul v i + σ * pinv v i }
+    (lanczosStep N P sσ l).alpha = (lanczosStep N P s l).alpha + σ ∧
+    (lanczosStep N P sσ l).zc = (lanczosStep N P s l).zc ∧
+    (lanczosStep N P sσ l).qc = (lanczosStep N P s l).qc ∧
+    (lanczosStep N P sσ l).betaCurr = (lanczosStep N P s l).betaCurr := by
+  intro sσ
+  have ha : (lanczosStep N P sσ l).alpha = (lanczosStep N P s l).alpha + σ := by
+    simp only [lanczosStep, applyA, hv, mem_eq, sσ, hq]
+    rw [dot_add_smul_left, hnorm, mul_one]
+  have hz : (fun i => applyA P sσ l.q1 i - (lanczosStep N P sσ l).alpha * l.z1 i - l.betaPrev * l.z2 i) =
+      (fun i => applyA P s l.q1 i - (lanczosStep N P s l).alpha * l.z1 i - l.betaPrev * l.z2 i) := by
+    funext i
+    rw [ha]
+    simp only [applyA, hv, sσ, hq]
+    ring
+  simp only [lanczosStep, mem_eq] at hz
+  have hzi := fun i => congrFun hz i
+  refine ⟨ha, ?_, ?_, ?_⟩ <;>
+    · simp only [lanczosStep, mem_eq, hz, hzi]
+      rfl
+
+/-! ### zero right-hand side, scaling -/
+
+/-- **`minres_zero_rhs`** — a right-hand-side column whose norm is below the threshold (in particular a zero column:
+`sqrt 0 = 0 < 1e-10`) yields the zero solution for every shift, whatever the iteration produced (the masked fill comes
+after the loop). -/
+theorem minres_zero_rhs (N : NumOps α) (P : Params α) {n : Nat} (s : Sys α n) (c : ColSt α n)
+    (hz : N.lt (norm2 N s.rhs) P.zeroThresh = true) :
+    ∀ v ∈ finishCol (prep N P s) c, v = fun _ => 0 := by
+  intro v hv
+  simp only [finishCol, prep, hz, List.mem_map, mem_eq] at hv
+  obtain ⟨g, _, rfl⟩ := hv
+  funext i; simp
+
+/-- The zero vector is below the threshold as soon as `sqrt 0 = 0` and `0 < threshold`. -/
+theorem zero_rhs_detected (N : NumOps α) (P : Params α) {n : Nat} (s : Sys α n) (h0 : s.rhs = fun _ => 0)
+    (hs : N.sqrt 0 = 0) (hlt : N.lt 0 P.zeroThresh = true) : N.lt (norm2 N s.rhs) P.zeroThresh = true := by
+  rw [norm2, h0, dot_zero_left, hs, hlt]
+
+/-- The loop never reads the right-hand side: the iteration only sees the closures and the shifts
+(`colStep` of a system with another rhs is the same function). -/
+theorem colStep_rhs_irrelevant (N : NumOps α) (P : Params α) {n : Nat} (s : Sys α n) (r' : Vec α n) (c : ColSt α n) :
+    colStep N P { s with rhs := r' } c = colStep N P s c := rfl
+
+/-- **`minres_linear_in_rhs`** (scaling through the normalisation) — for `c > 0` (as a field element with
+`sqrt (c² t) = c sqrt t`) and columns above the zero threshold, the normalised right-hand side handed to the iteration is
+the same for `b` and `c·b`, and the final un-normalisation factor is multiplied by `c`: hence `x(c·b) = c·x(b)`,
+for every shift and every iteration count. -/
+theorem minres_linear_in_rhs (N : NumOps α) (P : Params α) {n : Nat} (s : Sys α n) (c : α) (hc : c ≠ 0)
+    (hsq : N.sqrt (dot (fun i => c * s.rhs i) (fun i => c * s.rhs i)) = c * N.sqrt (dot s.rhs s.rhs))
+    (hnz : N.lt (norm2 N s.rhs) P.zeroThresh = false)
+    (hnz' : N.lt (c * norm2 N s.rhs) P.zeroThresh = false) (hn : norm2 N s.rhs ≠ 0) :
+    let s' : Sys α n := { s with rhs := fun i => c * s.rhs i }
+    (prep N P s').b = (prep N P s).b ∧ (prep N P s').nrm = c * (prep N P s).nrm ∧
+    ∀ st : ColSt α n, finishCol (prep N P s') st = (finishCol (prep N P s) st).map fun v => fun i => c * v i := by
+  intro s'
+  have hn' : norm2 N s'.rhs = c * norm2 N s.rhs := hsq
+  have hb : (prep N P s').b = (prep N P s).b := by
+    simp only [prep, mem_eq, hn', hnz, hnz', Bool.false_eq_true, if_false]
+    funext i
+    show c * s.rhs i / (c * norm2 N s.rhs) = s.rhs i / norm2 N s.rhs
+    field_simp
+  have hm : (prep N P s').nrm = c * (prep N P s).nrm := by
+    simp only [prep, hn', hnz, hnz', Bool.false_eq_true, if_false]
+  refine ⟨hb, hm, ?_⟩
+  intro st
+  have hz1 : (prep N P s').isZero = false := by simp only [prep, hn', hnz']
+  have hz2 : (prep N P s).isZero = false := by simp only [prep, hnz]
+  simp only [finishCol, mem_eq, hz1, hz2, hm, List.map_map, Bool.false_eq_true, if_false]
+  apply List.map_congr_left
+  intro g _
+  funext i
+  simp only [Function.comp]
+  ring
+
+/-! ### contour-integral plumbing -/
+
+/-- **`ciq_plumbing`** — given an exact shifted solver (`solver shifts b = shifts.map (R · b)` with `R s b` the
+solution of `(−K + sI)x = b`), `contour_integral_quad` returns the solve for the first shift (`0 − shift_offset`) as
+`no_shift_solves`, and for the remaining shifts `w_q² − shift_offset` the solves `R s_q b` (`inverse=True`) resp.
+`K·R s_q b` (`inverse=False`), paired with the weights `cn·dn·constant` in the same order; hence
+`Σ_q w_q·solves_q = Σ_q w_q (−K + s_q I)⁻¹ b` resp. `K·` that. -/
+theorem ciq_plumbing (N : NumOps α) {n : Nat} (R : α → Vec α n → Vec α n) (kmul : Vec α n → Vec α n) (e : Ellip α)
+    (off : α) (inverse : Bool) (b : Vec α n) :
+    let o := ciq N (fun shifts b => shifts.map fun s => R s b) kmul e off inverse b
+    o.noShift = R (0 - off) b ∧
+    o.solves = (ellipWPow2 N e).map (fun w => if inverse then R (w - off) b else kmul (R (w - off) b)) ∧
+    o.weights = ciqWeights N e ∧ o.shifts = (0 - off) :: (ellipWPow2 N e).map (· - off) := by
+  intro o
+  refine ⟨?_, ?_, rfl, ?_⟩
+  · simp [o, ciq, ciqShifts]
+  · cases inverse <;> simp [o, ciq, ciqShifts, List.map_map, Function.comp]
+  · simp [o, ciq, ciqShifts]
+
+/-- **`sqrtInvMatmul_lhs`** — in the left-factor variant the `inv_quad` output is `diag(L K⁻¹ Lᵀ)`: if the unshifted
+solve returned by CIQ for a column `l` is `−K⁻¹ l` (it solves `(−K)x = l`), then entry `i` of `inv_quad_res` is
+`⟨K⁻¹ lᵢ, lᵢ⟩` for the `i`-th row `lᵢ` of `lhs` — the rows are found at the right place of the concatenated
+`[rhs, lhsᵀ]` and the sign is undone. -/
+theorem sqrtInvMatmul_lhs {n : Nat} (ciqCol : Vec α n → CiqOut α n) (kinv : Vec α n → Vec α n)
+    (hsolve : ∀ l, (ciqCol l).noShift = fun i => -(kinv l i)) (rhsCols lhsRows : List (Vec α n)) :
+    (sqrtInvMatmulLhs ciqCol rhsCols lhsRows).2 = lhsRows.map fun l => dot (kinv l) l := by
+  simp only [sqrtInvMatmulLhs, List.length_append, Nat.add_sub_cancel, List.map_append, List.drop_left',
+    List.length_map]
+  rw [List.zipWith_map_right]
+  have hf : (fun (a b : Vec α n) => dot (ciqCol b).noShift a * (-(1 : α))) = fun a b => dot (kinv b) a := by
+    funext a b
+    rw [hsolve, dot_neg_left]; ring
+  rw [hf, List.zipWith_self]
+
+/-- The `sqrt_inv_matmul_res` output uses exactly the first `rhs.size(-1)` columns of the concatenation. -/
+theorem sqrtInvMatmul_lhs_result {n : Nat} (ciqCol : Vec α n → CiqOut α n) (rhsCols lhsRows : List (Vec α n)) :
+    (sqrtInvMatmulLhs ciqCol rhsCols lhsRows).1 =
+      lhsRows.map fun l => (sqrtInvMatmul ciqCol rhsCols).map fun c => dot l c := by
+  simp [sqrtInvMatmulLhs, sqrtInvMatmul, List.map_append, List.take_left']
+
+end field
+
+/-! ### hypotheses are satisfiable -/
+
+/-- A genuine rotation: `diag₀ = 3`, `β = 4`, radius `5` (rational square root). -/
+example : (rotTerms (α := Rat) { sqrt := fun x => if x = 25 then 5 else 0, lt := fun a b => decide (a < b) } 0 3 0 4
+    (initGv (n := 1) 1)).radius = 5 := by decide +kernel
 
 end LinOp.C11
